@@ -1033,6 +1033,9 @@ def run(chk):   # noqa
     _lockorder_rule(chk, prog)
     _rawtypes_rule(chk, prog)
     _decrefzero_rule(chk, prog)
+    _selfpipe_rule(chk, prog)
+    _bucketbound_rule(chk, prog)
+    _deinitunpack_rule(chk, prog)
 
 
 def _sweepreset_rule(chk, prog):
@@ -1272,7 +1275,10 @@ def _lockorder_rule(chk, prog):
     tu = prog.tus["ev.c"]
     n = 0
     for fn in tu.funcs.values():
-        loops = [lp for lp in fn.nodes if lp.k in ("for", "while", "do") and any(c.k == "call" and c.callee == LOCK for c in lp.walk())]
+        # loops that pile mutexes up: a lock in the body and nothing in the same body that gives it back (an unlock, or a
+        # *_with_lock helper - those return with the mutex released, which C08-LOCK establishes)
+        loops = [lp for lp in fn.nodes if lp.k in ("for", "while", "do") and any(c.k == "call" and c.callee == LOCK for c in lp.walk())
+                 and not any(c.k == "call" and (c.callee == UNLOCK or (c.callee or "").endswith("_with_lock")) for c in lp.walk())]
         if not loops:
             continue
         order = {id(x): i for i, x in enumerate(fn.nodes)}
@@ -1363,3 +1369,96 @@ def _decrefzero_rule(chk, prog):
                               "`%s` drops a reference and ignores whether it was the last one: when a discarded message held the only "
                               "reference to a thread channel or lock, that object is never finalized or freed" % c.text()[:40])
     chk.floor(rule, 3, n)
+
+
+def _selfpipe_rule(chk, prog):
+    """janet_ev_post_event hands a completion or a channel hand-off to another thread by writing one record to that
+    thread's self-pipe and treats a write that cannot complete as fatal (a few retries on EAGAIN, then janet_assert).
+    That is sound only while the write end blocks when the pipe is full; a non-blocking write end turns ~1600 hand-offs
+    in flight to a busy thread into a process abort that loses every one of them."""
+    rule = "C08-SELFPIPE"
+    chk.rule(rule, "the write end of the event loop's self-pipe is created blocking (janet_make_pipe mode evaluated against its O_NONBLOCK conditions)")
+    from rules.c16 import selfpipe_write_end_nonblocking
+    post = prog.need_func("janet_ev_post_event", "ev.c")
+    chk.analysed(post)
+    chk.instance(rule)
+    fatal = any(c.k == "call" and c.callee in ("janet_assert", "JANET_EXIT", "abort", "exit", "janet_exit") or
+                "janet_assert" in c.macro_names() for c in post.nodes)
+    mode, nonblock, call = selfpipe_write_end_nonblocking(prog)
+    if nonblock is None:
+        raise AnalysisBroken("janet_make_pipe: the O_NONBLOCK call for handles[1] was not recognised")
+    if not fatal:
+        chk.ok(rule, "janet_ev_post_event no longer treats a failed write as fatal")
+        chk.note("%s: premise gone (no janet_assert in janet_ev_post_event)" % rule)
+    elif nonblock:
+        chk.violation(rule, "ev.c", "janet_ev_setup_selfpipe", "write-end", call.loc,
+                      "the self-pipe is made with mode %s, for which janet_make_pipe sets O_NONBLOCK on the write end; janet_ev_post_event "
+                      "gives up after a few EAGAIN results and aborts the process once more messages are in flight to a thread than its "
+                      "pipe holds - every hand-off still queued is lost" % mode)
+    else:
+        chk.ok(rule, "self-pipe mode %s keeps the write end blocking" % mode)
+    chk.floor(rule, 1)
+
+
+def _bucketbound_rule(chk, prog):
+    """A JanetTable's entries are spread over `capacity` buckets; `count` is how many are occupied.  A loop that
+    visits buckets by index and stops at `count` sees only the entries that happen to hash low.  For
+    janet_vm.threaded_abstracts that means an exiting thread releases only some of its shared references."""
+    rule = "C08-BUCKETBOUND"
+    chk.rule(rule, "every loop that indexes the bucket array of a JanetTable is bounded by that table's capacity, not its count")
+    n = 0
+    for fn in prog.all_funcs():
+        for x in fn.nodes:
+            if x.k != "for" or len(x.kids) < 3:
+                continue
+            cond = x.kids[1] if len(x.kids) >= 4 else None
+            if cond is None:
+                continue
+            bound = [y for y in cond.walk() if y.k == "mem" and y.rec == "JanetTable" and y.field in ("count", "capacity", "deleted")]
+            if not bound:
+                continue
+            body = x.kids[-1]
+            # the loop subscripts `.data` of a table (directly or through a local initialised from it) with the loop variable
+            datas = set(d.name for d in fn.nodes if d.k == "vardecl" and d.kids and any(
+                y.k == "mem" and y.rec == "JanetTable" and y.field == "data" for y in d.kids[0].walk()))
+            subs = [y for y in body.walk() if y.k == "sub" and (
+                any(z.k == "mem" and z.rec == "JanetTable" and z.field == "data" for z in y.kids[0].walk()) or
+                (is_ref(strip_casts(y.kids[0])) and strip_casts(y.kids[0]).name in datas))]
+            if not subs:
+                continue
+            n += 1
+            chk.instance(rule)
+            chk.analysed(fn)
+            if all(b.field == "capacity" for b in bound):
+                chk.ok(rule, "%s: bucket loop at %s runs to capacity" % (fn.name, x.loc))
+            else:
+                chk.violation(rule, fn.tu.name, fn.name, "loop:%s" % bound[0].field, x.loc,
+                              "the loop at %s indexes a table's bucket array but stops at `%s`: entries are spread over all `capacity` buckets, "
+                              "so only those that hash into the first few are visited (for janet_vm.threaded_abstracts: a thread that exits "
+                              "keeps references on the shared abstracts it skipped, and they are never released)" % (x.loc, bound[0].text()))
+    chk.floor(rule, 3, n)
+
+
+def _deinitunpack_rule(chk, prog):
+    """A value queued in a thread channel is a packed message: a malloc'ed image that owns descriptors dup'ed by
+    janet_stream_marshal and references on shared abstracts.  Only unmarshalling it in discard mode
+    (janet_chan_unpack(chan, &item, 1)) gives those back; freeing the buffer alone leaks one descriptor or pinned
+    object per undelivered message."""
+    rule = "C08-DEINITUNPACK"
+    chk.rule(rule, "janet_chan_deinit passes every item it pops from a threaded channel's queue to janet_chan_unpack before the queue is freed")
+    fn = prog.need_func("janet_chan_deinit", "ev.c")
+    chk.analysed(fn)
+    chk.instance(rule)
+    pops = [c for c in fn.calls("janet_q_pop") if "items" in c.text()]
+    unp = fn.calls("janet_chan_unpack")
+    if not pops:
+        raise AnalysisBroken("janet_chan_deinit no longer drains the item queue")
+    loops = [x for x in fn.nodes if x.k in ("while", "for", "do") and any(c in pops for c in x.walk() if c.k == "call")]
+    ok = bool(unp) and any(any(c in unp for c in l.walk() if c.k == "call") for l in loops)
+    if ok:
+        chk.ok(rule, "janet_chan_deinit: popped items go through janet_chan_unpack")
+    else:
+        chk.violation(rule, "ev.c", "janet_chan_deinit", "items", pops[0].loc,
+                      "janet_chan_deinit drains the item queue of a threaded channel without passing the messages to janet_chan_unpack: "
+                      "the descriptors and shared-abstract references a packed message owns are never released")
+    chk.floor(rule, 1)
